@@ -231,6 +231,8 @@ func createPointerJobs(left, right IndividualNodes, options *IndividualNodesComp
 			}
 
 			// Don't resend individuals already sent.
+			verifPoint("cmp.pointer.check", a, b)
+
 			if _, ok := options.sentB.Load(b.Pointer()); ok {
 				continue
 			}
@@ -238,6 +240,8 @@ func createPointerJobs(left, right IndividualNodes, options *IndividualNodesComp
 			ss := a.SurroundingSimilarity(b, options.SimilarityOptions, true)
 			if ss.WeightedSimilarity() >= options.SimilarityOptions.PreferPointerAbove {
 				options.adjustTotal(totals)
+
+				verifPoint("cmp.pointer.send", a, b)
 
 				jobs <- &IndividualComparison{
 					Left:         a,
@@ -276,6 +280,8 @@ func createUniqueJobs(left, right IndividualNodes, options *IndividualNodesCompa
 
 				options.adjustTotal(totals)
 				ss := a.SurroundingSimilarity(b, options.SimilarityOptions, true)
+
+				verifPoint("cmp.unique.send", a, b)
 
 				jobs <- &IndividualComparison{
 					Left:         a,
@@ -345,6 +351,8 @@ func createJobs(totals chan int64, left, right IndividualNodes, options *Individ
 					continue
 				}
 
+				verifPoint("cmp.matrix.send", a, b)
+
 				jobs <- &IndividualComparison{
 					Left:  a,
 					Right: b,
@@ -365,11 +373,15 @@ func (o *IndividualNodesCompareOptions) processJobs(jobs chan *IndividualCompari
 	go func() {
 		util.WorkerPool(options.ConcurrentJobs(), func(i int) {
 			for j := range jobs {
+				verifPoint("cmp.process.begin", j.Left, j.Right)
+
 				// The similarity may already be calculated from when it was
 				// comparing on the pointer.
 				if j.Similarity == nil {
 					j.Similarity = j.Left.SurroundingSimilarity(j.Right, o.SimilarityOptions, false)
 				}
+				verifPoint("cmp.process.end", j.Left, j.Right)
+
 				results <- j
 			}
 		})
@@ -402,6 +414,8 @@ func (o *IndividualNodesCompareOptions) collectResults(results chan *IndividualC
 					results = nil
 					continue
 				}
+
+				verifPoint("cmp.collect", next.Left, next.Right)
 
 				similarities <- next
 
@@ -447,6 +461,8 @@ func (o *IndividualNodesCompareOptions) calculateWinners(a, b IndividualNodes, s
 		for similarity := range similarityResults {
 			// Remove any certain matches from the pool of possible winners.
 			if similarity.certainMatch {
+				verifPoint("cmp.winner", similarity.Left, similarity.Right)
+
 				winners <- similarity
 				found[similarity.Left] = true
 				found[similarity.Right] = true
@@ -474,6 +490,8 @@ func (o *IndividualNodesCompareOptions) calculateWinners(a, b IndividualNodes, s
 			if found[s.Left] == true || found[s.Right] == true {
 				continue
 			}
+
+			verifPoint("cmp.winner", s.Left, s.Right)
 
 			winners <- s
 			found[s.Left] = true
